@@ -10,6 +10,26 @@ use std::str::FromStr;
 fuzz_target!(|data: &[u8]| {
     let t = String::from_utf8_lossy(data);
     let Ok(p) = Program::from_str(&t) else { return };
+    // known finding c02-delay-function-named-qubit (KNOWN_FINDINGS.txt): excluded by construction so
+    // that the campaign searches behind it; its regression is replayed by the qv stage of the check
+    let ambiguous_delay = |i: &quil_rs::instruction::Instruction| match i {
+        quil_rs::instruction::Instruction::Delay(d) => {
+            d.frame_names.is_empty()
+                && matches!(d.qubits.last(), Some(quil_rs::instruction::Qubit::Variable(v)) if ["sin", "cos", "sqrt", "exp", "cis"].contains(&v.to_lowercase().as_str()))
+        }
+        _ => false,
+    };
+    fn nested(i: &quil_rs::instruction::Instruction) -> &[quil_rs::instruction::Instruction] {
+        match i {
+            quil_rs::instruction::Instruction::CalibrationDefinition(c) => &c.instructions,
+            quil_rs::instruction::Instruction::MeasureCalibrationDefinition(c) => &c.instructions,
+            quil_rs::instruction::Instruction::CircuitDefinition(c) => &c.instructions,
+            _ => &[],
+        }
+    }
+    if p.to_instructions().iter().any(|i| ambiguous_delay(i) || nested(i).iter().any(ambiguous_delay)) {
+        return;
+    }
     let s1 = match p.to_quil() {
         Ok(s) => s,
         Err(e) => panic!("C02: parsed program does not serialize: {e:?}"),
